@@ -16,6 +16,16 @@ ASSUME Base64(<<102, 111, 111, 98, 97, 114>>) = "Zm9vYmFy"
 ASSUME Base64(<<207, 76, 125, 115, 203, 251>>) = "z0x9c8v7"
 ASSUME Base64(<<255, 255, 254>>) = "///+"
 ASSUME Base64(<<0, 1>>) = "AAE="
+ASSUME Base64(<<102, 111, 111, 98, 97, 114, 102>>) = "Zm9vYmFyZg=="
+ASSUME Base64([i \in 1..10 |-> i - 1]) = "AAECAwQFBgcICQ=="
+ASSUME Base64([i \in 1..20 |-> 255]) = "//////////////////////////8="
+(* 4096 zero bytes: 1365 full triples "AAAA", then one byte "AA=="; 4097: two bytes "AAA=": *)
+(* padding only at the end                                                                 *)
+ASSUME LET z == Base64([i \in 1..4096 |-> 0]) IN Len(z) = 5464 /\ SubSeq(z, 5457, 5464) = "AAAAAA=="
+ASSUME LET z == Base64([i \in 1..4097 |-> 0]) IN Len(z) = 5464 /\ SubSeq(z, 5457, 5464) = "AAAAAAA="
+ASSUME LET z == Base64([i \in 1..4098 |-> 0]) IN Len(z) = 5464 /\ SubSeq(z, 5457, 5464) = "AAAAAAAA"
+ASSUME BytesOf([g |-> 1, e |-> 1, vr |-> "OB", rep |-> "pat8", vals |-> <<[n |-> 5, a |-> 100, b |-> 7]>>]) = <<7, 107, 207, 51, 151>>
+ASSUME BytesOf([g |-> 1, e |-> 1, vr |-> "OW", rep |-> "pat16", vals |-> <<[n |-> 3, a |-> 30000, b |-> 258]>>]) = <<2, 1, 50, 118, 98, 235>>
 
 ASSUME LEInt(VN(FALSE, "258", ""), 2) = <<2, 1>>
 ASSUME LEInt(VN(FALSE, "16909060", ""), 4) = <<4, 3, 2, 1>>
